@@ -129,3 +129,44 @@ with prepared_primary (p : primary) : bool :=
       | _, _, _, _, _ => true
       end
   end.
+
+(* what Parse guarantees beyond shape_expr: identifiers present, parameters not yet rewritten *)
+Fixpoint surf_expr (e : expr) : bool :=
+  match e with Expr l => surf_logopt l end
+with surf_logopt (l : logopt) : bool :=
+  match l with LgNone => true | LgSome x => surf_logical x end
+with surf_logical (l : logical) : bool :=
+  match l with Logical e _ next => surf_equality e && surf_logopt next end
+with surf_equality (q : equality) : bool :=
+  match q with Equality c _ next => surf_comparison c && surf_eqopt next end
+with surf_eqopt (o : eqopt) : bool :=
+  match o with EqNone => true | EqSome q => surf_equality q end
+with surf_comparison (c : comparison) : bool :=
+  match c with Comparison u _ next => surf_unary u && surf_cmpopt next end
+with surf_cmpopt (o : cmpopt) : bool :=
+  match o with CmNone => true | CmSome c => surf_comparison c end
+with surf_unary (u : unary) : bool :=
+  match u with UnOp _ u' => surf_unary u' | UnPrim p => surf_primary p end
+with surf_primary (p : primary) : bool :=
+  match p with Primary _ _ _ _ _ call sub _ _ _ => surf_callopt call && surf_expropt sub end
+with surf_expropt (o : expropt) : bool :=
+  match o with ExNone => true | ExSome e => surf_expr e end
+with surf_callopt (o : callopt) : bool :=
+  match o with ClNone => true | ClSome c => surf_callexpr c end
+with surf_callexpr (c : callexpr) : bool :=
+  match c with
+  | CallExpr ident ps sel => match ident with Some _ => true | None => false end && surf_paramsopt ps && surf_selopt sel
+  end
+with surf_paramsopt (o : paramsopt) : bool :=
+  match o with PsAbsent => true | PsList l => surf_params l end
+with surf_params (ps : params) : bool :=
+  match ps with PsNil => true | PsCons p r => surf_param p && surf_params r end
+with surf_param (p : param) : bool :=
+  match p with
+  | Param _ e jsonpath timeset _ =>
+      match jsonpath with None => true | Some _ => false end && negb timeset &&
+      match e with ExSome e' => surf_expr e' | ExNone => false end
+  end
+with surf_selopt (s : selopt) : bool :=
+  match s with SlNone => true | SlSome _ _ _ e => surf_expropt e end.
+
